@@ -468,7 +468,8 @@ static void long_body(Run &r, Stats &st, const LongJob &j, Ctx &x)
 }
 
 // ------------------------------------------------------------------ job: two limited dimensions
-// job "pair|L=<n>|p=<first letter of x or ->": all pairs (x, y) of sequences of length n over the six-letter alphabets,
+// job "pair|L=<n>|p=<first letter of x or ->": all pairs (x, y) of sequences of length n over the six-letter alphabets
+// (n = 5: y over the four letters below, in1, at-max, above),
 // x against [0,1] in dimension 0, y against [-1,1] in dimension 1, merged by linepart::array::apply().
 // Oracle for merged parts: raw >= 1, sum raw = n, marks need points, a value is a proper drawn element (not a cut/trim
 // end) of exactly one part iff it is in range in BOTH dimensions.  Fractions of merged parts are not judged.
@@ -596,7 +597,8 @@ static void pair_body(Run &r, Stats &st, const PairJob &j, Ctx &x)
 	double *vx = (double *) malloc(n * sizeof(double)), *vy = (double *) malloc(n * sizeof(double));
 	int lx[8], ly[8];
 	for (size_t i = 0; i < n; ++i) { lx[i] = i == 0 && j.p >= 0 ? j.p : (int) x.choose(6); vx[i] = RNG[0].val[lx[i]]; }
-	for (size_t i = 0; i < n; ++i) { ly[i] = (int) x.choose(6); vy[i] = RNG[1].val[ly[i]]; }
+	static const int sub4[4] = {0, 2, 4, 5};   // below, in1, at-max, above
+	for (size_t i = 0; i < n; ++i) { ly[i] = j.L >= 5 ? sub4[x.choose(4)] : (int) x.choose(6); vy[i] = RNG[1].val[ly[i]]; }
 	auto desc = [&]() { std::string d = "x=["; for (size_t i = 0; i < n; ++i) d += (i ? " " : "") + std::string(RNG[0].lname[lx[i]]); d += "] y=["; for (size_t i = 0; i < n; ++i) d += (i ? " " : "") + std::string(RNG[1].lname[ly[i]]); return d + "]"; };
 	if (r.replaying) r.note("data %s", desc().c_str());
 	uint64_t nt = st.nontrivial;
@@ -738,7 +740,7 @@ void mc_jobs(Tier t, std::vector<std::string> &jobs)
 	seq_jobs(jobs, 2, 8, q ? 6 : 8);      // 5 letters
 	seq_jobs(jobs, 3, 6, q ? 9 : 12);     // NULL range, 2 letters
 	seq_jobs(jobs, 4, 6, q ? 8 : 11);     // inverted range, 3 letters
-	// two limited dimensions: all pairs of sequences of length 1..4 (quick) / 1..5 (thorough)
+	// two limited dimensions: all pairs of sequences of length 1..4 (quick) / 1..5 (thorough; length 5 with four letters for y)
 	for (int L = q ? 4 : 5; L >= 1; --L) {
 		if (L >= 4) for (int a = 0; a < 6; ++a) jobs.push_back(fmt("pair|L=%d|p=%d", L, a));
 		else jobs.push_back(fmt("pair|L=%d|p=-", L));
